@@ -16,13 +16,17 @@ def spec_table():
     return t
 
 
-def term_of_closure(body):
-    """symbolic term of the fold step: straight-line evaluation of the closure body"""
-    env = {}
-
+def eval_region(facts, body, start, env, stop=None, special=None, depth=0):
+    """symbolic evaluation of a straight-line region of MIR (gotos, asserts and calls to straight-line in-crate functions are
+    followed; anything else ends the evaluation with None).  env: local -> term.  Returns env at `stop` (a block index reached
+    by a goto) or at the Return terminator."""
     def op(o):
         if o['o'] in ('copy', 'move'):
             p = o['place']
+            if special:
+                sp = special(p)
+                if sp is not None:
+                    return sp
             base = env.get(p['local'])
             if base is None:
                 # parameters are named by their type, not by their source name: the u32 one is the accumulator, the byte the element
@@ -41,9 +45,11 @@ def term_of_closure(body):
         if 'item' in o:
             return ('item', o['item'])
         return ('const?', o.get('s'))
-    bb = 0
+    bb = start
     seen = set()
     while True:
+        if bb == stop and seen:
+            return env
         if bb in seen:
             return None
         seen.add(bb)
@@ -70,11 +76,115 @@ def term_of_closure(body):
             env[st['place']['local']] = v
         t = blk['term']
         if t['t'] == 'return':
-            return env.get(0)
+            return env
         if t['t'] in ('goto', 'assert'):
             bb = t['target']
             continue
+        if t['t'] == 'call' and depth < 3 and 'fn' in t['func'] and t['target'] is not None and not t['dest']['proj']:
+            # a straight-line helper of the crate (e.g. a `const fn` holding the byte step): evaluate it on the argument terms
+            fnj = t['func']['fn']
+            cb = facts.bodies.get(fnj.get('resolved') or fnj['name'])
+            if cb is None or cb.def_kind == 'Closure':
+                return None
+            cenv = {i + 1: op(a) for i, a in enumerate(t['args'])}
+            cres = eval_region(facts, cb, 0, cenv, depth=depth + 1)
+            if cres is None or 0 not in cres:
+                return None
+            env[t['dest']['local']] = cres[0]
+            bb = t['target']
+            continue
         return None
+
+
+def term_of_closure(facts, body):
+    """symbolic term of the fold step: straight-line evaluation of the closure body"""
+    env = eval_region(facts, body, 0, {})
+    return env.get(0) if env else None
+
+
+def loop_form(facts, b):
+    """crc32 written as an explicit loop over the bytes of `data`:  acc = crc; for octet in data { acc = STEP(acc, octet) }; acc
+    Returns (step term, None) or (None, reason)."""
+    heads = sorted(b.loop_heads())
+    if len(heads) != 1:
+        return None, f"{len(heads)} loops"
+    H = heads[0]
+    # the loop head asks a slice iterator for the next byte
+    blk = b.blocks[H]
+    t = blk['term']
+    if t['t'] != 'call' or 'fn' not in t['func'] or not strip_generics(t['func']['fn'].get('resolved') or t['func']['fn']['name']).endswith('Iterator>::next'):
+        return None, 'the loop head does not call Iterator::next'
+    opt = t['dest']['local']
+    # &mut iter: follow the reborrows inside the head block
+    it = t['args'][0]['place']['local']
+    for _ in range(3):
+        for st in blk['stmts']:
+            if st['s'] == 'assign' and st['place'] == {'local': it, 'proj': []} and st['rv']['r'] == 'ref':
+                it = st['rv']['place']['local']
+    sw = b.blocks[t['target']]
+    if sw['term']['t'] != 'switch':
+        return None, 'no match on the iterator result'
+    cases = {int(c[0]): c[1] for c in sw['term']['cases']}
+    if 0 not in cases or 1 not in cases:
+        return None, 'no None / Some arms'
+    b_none, b_some = cases[0], cases[1]
+    # the iterator runs over the whole `data` parameter, created before the loop
+    data_i = [i for i in range(1, b.arg_count + 1) if b.local_ty(i).get('s') == '&[u8]']
+    crc_i = [i for i in range(1, b.arg_count + 1) if b.local_ty(i).get('s') == 'u32']
+    if len(data_i) != 1 or len(crc_i) != 1:
+        return None, 'parameters'
+    loop_blocks = b.reachable_from(b_some, stop=lambda x: x == H) | {H, t['target']}
+    made = False
+    for pb in b.blocks:
+        if pb['i'] in loop_blocks:
+            continue
+        pt = pb['term']
+        if pt['t'] == 'call' and 'fn' in pt['func']:
+            nm = strip_generics(pt['func']['fn'].get('resolved') or pt['func']['fn']['name'])
+            if nm.endswith('into_iter') or nm == 'core::slice::iter':
+                a0 = pt['args'][0]
+                if _is_copy_of_param(b, a0, data_i[0]) or _reborrow_of_param(b, a0, data_i[0]):
+                    # dest flows into `it`
+                    d = pt['dest']['local']
+                    if d == it or any(st['s'] == 'assign' and st['place'] == {'local': it, 'proj': []} and st['rv']['r'] == 'use' and st['rv']['op'].get('place', {}).get('local') == d
+                                      for blk2 in b.blocks for st in blk2['stmts']):
+                        made = True
+    if not made:
+        return None, 'the iterator is not data.iter() / data.into_iter() of the whole slice'
+    # exit: the accumulator is returned unmodified
+    xenv = eval_region(facts, b, b_none, {})
+    if not xenv or 0 not in xenv or xenv[0][0] != 'local':
+        return None, 'the value returned after the loop is not a plain local'
+    acc_name = xenv[0][1]
+    acc = [i for i in range(len(b.locals)) if (b.local_names.get(i, i) == acc_name or i == acc_name) and b.local_ty(i).get('s') == 'u32']
+    if acc_name == 'acc' and not acc:
+        acc = crc_i            # the parameter itself (`mut crc`) is the accumulator
+    if len(acc) != 1:
+        return None, 'accumulator local not identified'
+    A = acc[0]
+    # seeded with the parameter
+    if A != crc_i[0]:
+        seeded = any(st['s'] == 'assign' and st['place'] == {'local': A, 'proj': []} and st['rv']['r'] == 'use' and _is_copy_of_param(b, st['rv']['op'], crc_i[0])
+                     for pb in b.blocks if pb['i'] not in loop_blocks for st in pb['stmts'])
+        if not seeded:
+            return None, 'the accumulator is not seeded with the crc parameter'
+    # one iteration: straight line from the Some arm back to the head
+
+    def special(p):
+        if p['local'] == opt and [e['p'] for e in p['proj']][:2] == ['downcast', 'field']:
+            return ('local', 'octet')
+        return None
+    benv = eval_region(facts, b, b_some, {A: ('local', 'acc')}, stop=H, special=special)
+    if not benv or A not in benv:
+        return None, 'the loop body is not a straight line that assigns the accumulator'
+    # the iterator is only advanced by the head
+    for lb in loop_blocks:
+        if lb == H:
+            continue
+        for st in b.blocks[lb]['stmts']:
+            if st['s'] == 'assign' and st['rv']['r'] == 'ref' and st['rv']['place']['local'] == it:
+                return None, 'the iterator is touched inside the loop body'
+    return benv[A], None
 
 
 def width(t):
@@ -152,38 +262,47 @@ def run(ck):
         ck.finding('C12.R4', 'gse_standard::CRC_INIT', 'init', 'CRC_INIT is not 0xFFFFFFFF')
     else:
         ck.discharged += 1
-    # ---- R2: the byte step
-    try:
-        clo = f.bodies['crc::crc32::{closure#0}']
-    except KeyError:
-        raise Tooling('anchor lost: fold closure of crc::crc32')
-    t = term_of_closure(clo)
+    # ---- R2: the byte step.  Two idioms are understood: `data.iter().fold(crc, |acc, octet| STEP)` and the explicit loop
+    # `let mut acc = crc; for octet in data { acc = STEP }; acc`; STEP may sit in a straight-line helper function.
+    b = f.body('crc::crc32')
+    clo = f.bodies.get('crc::crc32::{closure#0}')
+    form = None
+    t = None
+    if clo is not None:
+        form = 'fold'
+        t = term_of_closure(f, clo)
+    else:
+        t, why = loop_form(f, b)
+        form = 'loop'
+        if t is None:
+            raise Tooling(f"anchor lost: crc::crc32 is neither a fold over data.iter() nor a plain loop over the bytes of data ({why})")
     got = norm(t) if t else None
     want = ('xor', tuple(sorted([('shl', ('local', 'acc'), ('const', 8)),
                                  ('tab', ('item', 'crc::CRC_TAB'), ('xor', tuple(sorted([('shr', ('local', 'acc'), ('const', 24)), ('local', 'octet')], key=repr))))], key=repr)))
     ck.obligations += 1
-    ck.sample({'step term': repr(got)})
+    ck.sample({'step term': repr(got), 'form': form})
     if got == want:
         ck.discharged += 1
     else:
-        ck.finding('C12.R2', 'crc::crc32::{closure#0}', 'step', f"the fold step is {got!r}, CRC-32/MPEG-2 (table driven, MSB first) needs (acc << 8) ^ TAB[(acc >> 24) ^ octet]")
+        ck.finding('C12.R2', 'crc::crc32', 'step', f"the byte step is {got!r}, CRC-32/MPEG-2 (table driven, MSB first) needs (acc << 8) ^ TAB[(acc >> 24) ^ octet]")
     ck.rule('C12.R2 fold step term', 1, 1)
     # its panic sites (index < 256, shift amounts)
-    ca = ck.analyse('crc::crc32::{closure#0}', {'kslots': 2})
+    ca = ck.analyse('crc::crc32::{closure#0}' if form == 'fold' else 'crc::crc32', {'kslots': 2})
     nn = ck.count_obligations(ca.obligations(), 'C12.R2')
     ck.rule('C12.R2 panic obligations of the step (index < 256, shifts < 32)', nn, 3 if ck.profile == 'dev' else 1)   # release MIR carries no shift-overflow asserts
-    # ---- R3: crc32 = data.iter().fold(crc, step)
-    b = f.body('crc::crc32')
-    calls = [(blk, blk['term']) for blk in b.blocks if blk['term']['t'] == 'call']
-    names = [strip_generics(t['func']['fn'].get('resolved') or t['func']['fn']['name']) for _, t in calls]
-    ok3 = names == ['core::slice::iter', '<std::slice::Iter as std::iter::Iterator>::fold']
-    if ok3:
-        it, fo = calls[0][1], calls[1][1]
-        ok3 = (fo['dest'] == {'local': 0, 'proj': []}
-               and fo['args'][0]['o'] == 'move' and fo['args'][0]['place'] == it['dest']
-               and _is_copy_of_param(b, fo['args'][1], 2)
-               and it['args'][0]['o'] in ('move', 'copy') and _reborrow_of_param(b, it['args'][0], 1)
-               and not any(st['s'] == 'assign' and st['place'] == {'local': 0, 'proj': []} for blk in b.blocks for st in blk['stmts']))
+    # ---- R3: crc32 = data.iter().fold(crc, step)   (for the loop form the shape was established by loop_form above)
+    ok3 = form == 'loop'
+    if form == 'fold':
+        calls = [(blk, blk['term']) for blk in b.blocks if blk['term']['t'] == 'call']
+        names = [strip_generics(t_['func']['fn'].get('resolved') or t_['func']['fn']['name']) for _, t_ in calls]
+        ok3 = names == ['core::slice::iter', '<std::slice::Iter as std::iter::Iterator>::fold']
+        if ok3:
+            it, fo = calls[0][1], calls[1][1]
+            ok3 = (fo['dest'] == {'local': 0, 'proj': []}
+                   and fo['args'][0]['o'] == 'move' and fo['args'][0]['place'] == it['dest']
+                   and _is_copy_of_param(b, fo['args'][1], 2)
+                   and it['args'][0]['o'] in ('move', 'copy') and _reborrow_of_param(b, it['args'][0], 1)
+                   and not any(st['s'] == 'assign' and st['place'] == {'local': 0, 'proj': []} for blk in b.blocks for st in blk['stmts']))
     ck.obligations += 1
     if ok3:
         ck.discharged += 1
